@@ -6,7 +6,7 @@ from .. import AnalysisError
 from ..report import Ob
 from ..cfg import calls_at, call_attr, is_self_attr, walk_now
 from ..state import Analysis, State, TOP, bind_call, SCHED_PARAMS, sched_action_name, sched_event_type
-from ..norm import Normalizer, cmp_norm, FrameEnv
+from ..norm import Normalizer, cmp_norm, FrameEnv, subst, ctext
 from .. import inventory as inv
 from .c18 import doc_default
 
@@ -80,9 +80,11 @@ class Series:
             return 'probe1'
         return None
 
-    def series_class(self, e, env):
+    def series_class(self, e, env, frame=None):
         """'probe' (each probe series, inside a loop over the probes), 'probe1' (one probe's series), a constant key,
         'ALL' (each series, inside a loop over self.data) or None"""
+        if frame is not None:
+            e = subst(e, FrameEnv(frame), keep=tuple(env))       # local aliases such as `times = self.data['time']`
         if isinstance(e, ast.Subscript) and is_self_attr(e.value, 'data'):
             k = self.key_class(e.slice, env)
             return 'ALL' if k == 'ALLKEY' else k
@@ -131,10 +133,10 @@ class Series:
         flip = {ast.Gt: ast.Lt, ast.GtE: ast.LtE, ast.Lt: ast.Gt, ast.LtE: ast.GtE, ast.Eq: ast.Eq, ast.NotEq: ast.NotEq}
 
         def is_len(x):
-            return isinstance(x, ast.Call) and isinstance(x.func, ast.Name) and x.func.id == 'len' and len(x.args) == 1 and self.series_class(x.args[0], env)
+            return isinstance(x, ast.Call) and isinstance(x.func, ast.Name) and x.func.id == 'len' and len(x.args) == 1 and self.series_class(x.args[0], env, frame)
 
         def is_cap(x):
-            return ast.unparse(x) in ('self._data_capacity', 'self.data_capacity')
+            return ctext(x, FrameEnv(frame), keep=tuple(env)) in ('self._data_capacity', 'self.data_capacity')
         if is_len(r) and is_cap(l):
             l, r = r, l
             op = flip.get(op)
@@ -143,14 +145,14 @@ class Series:
                 return ('?', 'unrecognised')
             return None
         rel = {ast.Gt: '>', ast.GtE: '>=', ast.Lt: '<', ast.LtE: '<=', ast.Eq: '==', ast.NotEq: '!='}[op]
-        return self.series_class(l.args[0], env), rel
+        return self.series_class(l.args[0], env, frame), rel
 
-    def apply_call(self, st, cl, env, mult=False):
+    def apply_call(self, st, cl, env, mult=False, frame=None):
         """effect of one call expression on the series counters; returns the new state (flags record anomalies)"""
         nm = call_attr(cl)
         if not isinstance(cl.func, ast.Attribute):
             return st
-        cls = self.series_class(cl.func.value, env)
+        cls = self.series_class(cl.func.value, env, frame)
         if cls is None:
             return st
         if nm == 'append' and len(cl.args) == 1:
@@ -298,7 +300,7 @@ class Series:
                 if isinstance(a, ast.Delete) and any(any(is_self_attr(x, 'data') for x in ast.walk(t)) for t in a.targets):
                     st = st.with_flag('series-del')
                 for cl in calls_at(g, n):
-                    st = S.apply_call(st, cl, {})
+                    st = S.apply_call(st, cl, {}, frame=n.frame)
             return st
 
         def edge_hook(an_, n, label, st):
@@ -418,11 +420,11 @@ def periodic(ctx, o, c, N):
                 if call_attr(cl) == 'schedule_event':
                     b = bind_call(cl, SCHED_PARAMS)
                     t = N.norm(b['time'], FrameEnv(n.frame)) if 'time' in b else None
-                    good = t is not None and t.is_({'NOW': 1, 'self._interval': 1}) and ast.unparse(b.get('asset_id', ast.Constant(0))) == 'self.id' \
+                    good = t is not None and t.is_({'NOW': 1, 'self._interval': 1}) and ctext(b.get('asset_id', ast.Constant(0)), FrameEnv(n.frame)) == 'self.id' \
                         and sched_action_name(cl) == '_periodic_sense'
                     tag = 'scheduled' if good else ('scheduled-wrong:' + (t.key() if t is not None else '?') + '/' + str(sched_action_name(cl)))
                     st = st.with_flag('scheduled-twice' if 'scheduled' in st.flags else tag)
-                if call_attr(cl) == 'append' and isinstance(cl.func, ast.Attribute) and ast.unparse(cl.func.value) == "self.data['time']":
+                if call_attr(cl) == 'append' and isinstance(cl.func, ast.Attribute) and ctext(cl.func.value, FrameEnv(n.frame)) == "self.data['time']":
                     ok = len(cl.args) == 1 and N.norm(cl.args[0], FrameEnv(n.frame)).is_({'NOW': 1})
                     st = st.with_flag('time<-now' if ok else 'time<-other')
             if n.kind == 'call_enter' and n.frame.func.name == 'sense':
